@@ -348,6 +348,15 @@ def must(ctx: Ctx) -> List[Ob]:
     cfg = ctx.cfg(f)
     _eg = [g_ for n_ in cfg.stmt_nodes() if _unreg_loop(n_) for g_ in empty_guards(ctx, cfg, n_.ast)]
 
+    # `if self._children is not None: <everything>`: for a node whose list is None there is nothing to unregister and nothing
+    # to clear (the test node stands for the work it guards)
+    for n_ in cfg.nodes:
+        st_ = ctx.model.parent_of(n_.ast) if n_.kind == "test" and n_.ast is not None else None
+        if isinstance(st_, ast.If) and st_.test is n_.ast and not st_.orelse and norm(st_.test) in ("self._children is not None", "not self._children is None") \
+                and any(_unreg_loop(b_) for b_ in cfg.stmt_nodes() if b_.ast is not None and any(b_.ast is x for y in st_.body for x in ast.walk(y))):
+            _eg.append(n_)
+    _none_guards = [g_ for g_ in _eg if norm(g_.ast) in ("self._children is not None", "not self._children is None")]
+
     def _unreg_loop_or_leaf(n: N) -> bool:
         return _unreg_loop(n) or any(n is g_ for g_ in _eg)
 
@@ -358,7 +367,7 @@ def must(ctx: Ctx) -> List[Ob]:
             obs.append(ctx.ob("MUST", ["C01", "C02"], f, f"descendant walk is complete and children-first: {norm(n.ast.iter)}", n.ast, ok,
                               "" if ok else why + " (_unregister nulls node._children while the walk still needs it)"))
     clear = P_effect(si, ["rebind"], ["_children"])
-    _must(ctx, obs, f, "clears self._children", clear, ["C01", "C04"], "the removed children must not stay reachable")
+    _must(ctx, obs, f, "clears self._children", P_or(clear, lambda n: any(n is g_ for g_ in _none_guards)), ["C01", "C04"], "the removed children must not stay reachable")
     _dominates(ctx, obs, f, "descendants are unregistered before the list is dropped", clear, _unreg_loop_or_leaf, ["C01"],
                "after self._children = None the walk finds nothing to unregister")
 
